@@ -26,7 +26,7 @@ EXPLANATION = (
     " Round 4: the 'same canvas object as last time' shortcut of draw_screen reads screen_buf (which clear(), resize and stop reset); (11) LOOPFRESH on per-row state of the two draw_screen implementations."
     " Round-4 triage: (12) the erase-to-end-of-line shortcut is disabled for every style flag _attrspec_to_escape() emits that is drawn on blank cells (all but bold / italics / blink). Round 5: (13) every value given to the rendition model of draw_screen is sent on every path to its next use; (14) _last_row reads row[-2] only under a test of len(row); (15) every draw_screen reads all three components of a run (the HTML back-end used to drop the charset flag); (3, extended) `_resized` is tested again between the write loop and the screen_buf record."
     ' Round 6: (12) the erase-shortcut helper resolves an AttrSpec object to itself; (16) TAINT: every piece of cell text decoded for output went through the control-character filter - also the cell written with the insert trick (fix 8553a8b); (17) a draw that ends with the IBM PC font on switches it off.'
-    ' Round 7: (18) the erase shortcut strips exactly the byte its enabling test found at the end of the run.'
+    ' Round 7: (18) the erase shortcut strips exactly the byte its enabling test found at the end of the run; (19) set_encoding() stores the one UTF-8 spelling the display modules compare get_encoding() with (fix 7c379d4).'
 )
 NOT_DECIDED = "The effect of the escape stream on a terminal across frame histories, the erase-to-end-of-line and insert-mode equivalences, no-scroll - these need a terminal interpreter, i.e. execution."
 ASSUMPTIONS = []
@@ -656,6 +656,53 @@ def rule_strip_what_was_tested(ctx: Ctx) -> RuleResult:
     return rr
 
 
+def rule_one_utf8_spelling(ctx: Ctx) -> RuleResult:
+    """draw_screen() decides 'no SI / SO / IBM-PC switching in UTF-8' by comparing util.get_encoding() with the
+    literal 'utf-8'.  set_encoding() accepts several spellings for that family (`encoding in {...}` on the arm that
+    selects the utf8 byte mode), so the arm has to store the one spelling the consumers compare with: it rebinds the
+    name that ends up in _target_encoding to that literal.  Before fix 7c379d4 set_encoding('utf8') made
+    get_encoding() answer 'utf8' and every row of a UTF-8 screen began with a shift-in byte."""
+    p = ctx.p
+    rr = RuleResult("TAB", "C04.19", "set_encoding() stores, for every accepted UTF-8 spelling, the literal that the display modules compare get_encoding() with", floor=2)
+    # consumers: literals compared with get_encoding() (directly or through a local)
+    consumers = {}
+    for fi in p.functions.values():
+        if fi.is_lambda or not fi.module.name.startswith("urwid.display"):
+            continue
+        du = None
+        for n in fi.own_nodes():
+            if not (isinstance(n, ast.Compare) and len(n.ops) == 1 and isinstance(n.ops[0], (ast.Eq, ast.NotEq)) and isinstance(n.comparators[0], ast.Constant) and isinstance(n.comparators[0].value, str)):
+                continue
+            du = du or DefUse(fi)
+            at = du.node_of(n)
+            txt = ast.unparse(du.expand(n.left, at)) if at is not None else ast.unparse(n.left)
+            if txt.endswith("get_encoding()"):
+                consumers.setdefault(n.comparators[0].value, []).append(f"{short(fi)}: {norm(n, 40)}")
+    se = p.func("urwid.util.set_encoding")
+    cfg = cfg_of(se)
+    prm = se.params[0]
+    arms = []
+    for t in cfg.nodes:
+        if t.kind == "test" and isinstance(t.ast, ast.Compare) and isinstance(t.ast.ops[0], ast.In) and isinstance(t.ast.comparators[0], (ast.Set, ast.Tuple, ast.List)):
+            lits = {e.value for e in t.ast.comparators[0].elts if isinstance(e, ast.Constant)}
+            arms.append((t, lits))
+    if not arms or not consumers:
+        raise AnalysisError(f"set_encoding: membership arms ({len(arms)}) / get_encoding() comparisons in the display modules ({len(consumers)}) not found")
+    for lit, sites in sorted(consumers.items()):
+        for t, lits in arms:
+            if lit not in lits:
+                continue
+            others = sorted(lits - {lit})
+            stores = [n for n in cfg.nodes if isinstance(n.ast, ast.Assign) and any(isinstance(x, ast.Name) and x.id == prm for x in n.ast.targets) and isinstance(n.ast.value, ast.Constant) and n.ast.value.value == lit and n not in ExcEngine._reach_without_edge(cfg, t, "T")]
+            ok = not others or bool(stores)
+            rr.inst(f"{lit}", True, {"literal": lit, "compared_at": sites[:4], "other_spellings_accepted": others, "normalised_on_the_arm": bool(stores)})
+            for site in sites[1:]:
+                rr.inst(f"{lit}@{site}", True)
+            if not ok:
+                rr.add(finding("TAB", se, t.stmt, f"set_encoding() accepts {others} besides {lit!r} for the same encoding but stores the caller's spelling: get_encoding() then answers e.g. {others[0]!r} and `{sites[0]}` (and {len(sites) - 1} more) takes the non-UTF-8 branch - shift-in / shift-out bytes in UTF-8 output", construct=f"spellings {others} not normalised to {lit!r}"))
+    return rr
+
+
 def run(ctx: Ctx):
     r6 = c17.rule_palette_cache(ctx, "C04.6")
     r7 = c17.rule_palette_total(ctx, "C04.7")
@@ -663,12 +710,13 @@ def run(ctx: Ctx):
     r8.clause = "C04.8"
     r9 = accum.run_accum(ctx.p, "C04.9", "C04", floor=1)
     r11 = loopfresh.run_loopfresh(ctx.p, "C04.11", "C04", floor=3)
-    return [rule_triple(ctx), rule_last_row_triple(ctx), rule_cursor(ctx), rule_repaint(ctx), rule_charset_first(ctx), rule_html(ctx), rule_html_cursor_columns(ctx), r6, r7, r8, r9, r11, rule_erase_shortcut(ctx), rule_rendition_model(ctx), rule_last_row_neighbour(ctx), rule_cell_components(ctx), rule_cell_text_filtered(ctx), rule_font_off_at_end(ctx), rule_strip_what_was_tested(ctx)]
+    return [rule_triple(ctx), rule_last_row_triple(ctx), rule_cursor(ctx), rule_repaint(ctx), rule_charset_first(ctx), rule_html(ctx), rule_html_cursor_columns(ctx), r6, r7, r8, r9, r11, rule_erase_shortcut(ctx), rule_rendition_model(ctx), rule_last_row_neighbour(ctx), rule_cell_components(ctx), rule_cell_text_filtered(ctx), rule_font_off_at_end(ctx), rule_strip_what_was_tested(ctx), rule_one_utf8_spelling(ctx)]
 
 
 _RW = "urwid/display/_raw_display_base.py"
 _HT = "urwid/display/html_fragment.py"
 MUTANTS = [
+    Mut("set-encoding-keeps-utf8-spelling", "urwid/util.py", "set_encoding", "        encoding = \"utf-8\"  # the one spelling get_encoding() reports and the display modules compare with\n", "", "TAB|util.set_encoding|spellings ['utf', 'utf8'] not normalised to 'utf-8'"),
     Mut("erase-shortcut-strips-all-whitespace", _RW, "urwid.display._raw_display_base.Screen.draw_screen", 'run.rstrip(b" ")', "run.rstrip()", "SIB|display._raw_display_base.Screen.draw_screen|strip run.rstrip() does not match the tested byte"),
     Mut("insert-cell-unfiltered", _RW, "urwid.display._raw_display_base.Screen.draw_screen", "                    if insertcs != \"U\":\n                        inserttext = inserttext.translate(UNPRINTABLE_TRANS_TABLE)\n", "", "TAINT|display._raw_display_base.Screen.draw_screen|cell text inserttext decoded without the control-character filter"),
     Mut("draw-ends-with-pc-font-on", _RW, "urwid.display._raw_display_base.Screen.draw_screen", "        if last_charset_flag == \"U\":\n            # the next draw starts from the normal font: SGR 0 does not switch the IBM PC mapping off everywhere\n            output.append(escape.IBMPC_OFF)\n", "", "PAIR|display._raw_display_base.Screen.draw_screen|draw can end with the IBM PC font on"),
